@@ -69,6 +69,8 @@ def run(ck, rng):
         else:
             build = canonical_build(its)
             vop = "%s,0,%s,%s" % ("V" if vname == "root" else "Vd", strict, hx(target))
+        if rng.random() < 0.12:
+            vop += "," + rng.choice("jyt")
         cases.append("hist " + ";".join(["F,%s" % snap_arg(pre)] + ops + build + [vop]))
         meta.append((vname, its, target, strict == "1", scen, len(ops)))
     impl, _ = run_impl(exe, cases)
